@@ -3,8 +3,8 @@ from ..core import f2b, b2f, run_harness, run_driver
 from ..cmp import cmp_bits_list
 from .. import samples as S, sample_checks as SC
 
-MODULE = "Momtrop.Props.C14"
-THEOREMS = ["Momtrop.C14.chooseEdge_spec", "Momtrop.C14.permLoop_reads", "Momtrop.C14.permutahedral_reads", "Momtrop.C14.sample_reads_dim", "Momtrop.C14.lambda_depends_one", "Momtrop.C14.gaussian_depends_pair"]
+MODULE = "Momtrop.Props.C14Tail"
+THEOREMS = ["Momtrop.C14.chooseEdge_spec", "Momtrop.C14.permLoop_reads", "Momtrop.C14.permutahedral_reads", "Momtrop.C14.sample_reads_dim", "Momtrop.C14.lambda_depends_one", "Momtrop.C14.gaussian_depends_pair", "Momtrop.C14.permLoop_congr", "Momtrop.C14.feynman_depends_first", "Momtrop.C14.qVectors_congr", "Momtrop.C14.sample_ignores_tail"]
 RULE = ("accepted connected graphs (1..4 loops, D=1..6 so that D*L is odd and even), points of length get_dimension()+3; the real generic "
         "code runs with a dependency-tracking scalar (value + set of coordinates + log of comparisons and narrowings): used coordinates, "
         "data/control dependencies of Feynman parameters, lambda and every Gaussian component; plus perturbation of every single "
